@@ -548,7 +548,9 @@ htp_status_t htp_connp_REQ_BODY_IDENTITY(htp_connp_t *connp) {
     if (bytes_to_consume == 0) return HTP_DATA;
 
     // Consume data.
-    int rc = htp_tx_req_process_body_data_ex(connp->in_tx, connp->in_current_data + connp->in_current_read_offset, bytes_to_consume);
+    // For a stream gap the data pointer is NULL.
+    int rc = htp_tx_req_process_body_data_ex(connp->in_tx,
+            (connp->in_current_data != NULL) ? connp->in_current_data + connp->in_current_read_offset : NULL, bytes_to_consume);
     if (rc != HTP_OK) return rc;
 
     // Adjust counters.
